@@ -183,7 +183,9 @@ def postcondition(r, user, status, before, after):
                     "no-uid-conflict asks for a conflict answer" % (_items(before[coll])[href][0], _items(after[coll])[href][0]))
         return unchanged_except(item=(coll, href))
     if m == "DELETE":
-        if r.get("as_collection") or target in before:       # (a collection can be addressed without the trailing slash)
+        # (a collection can be addressed without the trailing slash, and an item - a member of a calendar - with one)
+        is_item = target not in before and target[:-1] in before and target[-1] in _items(before[target[:-1]])
+        if (r.get("as_collection") or target in before) and not is_item:
             if any(p[:len(target)] == target for p in after):
                 return "the collection or something below it still exists"
             return unchanged_except(paths_prefix=(target,))
